@@ -115,4 +115,25 @@ CLAIMS = {
                 "counter where the code raises ValueError.",
         "technique": "Lean 4 invariant proof over executable model + structural differential correspondence",
     },
+    "C04": {
+        "text": "C04_chunking (from every reachable state, one fit of xs ++ ys equals two consecutive fits, any cut), C04_packed (unpack . pack "
+                "= id for every feature count), C04_pages / _disjoint / _none (the page-release counter machine releases only whole "
+                "steps inside the mapped file and behind the read cursor, never twice). Correspondence: every representation x dtype x "
+                "chunking of the same rows against one model run, a fresh subprocess, and recorded madvise calls vs the model machine.",
+        "note": TB + "PARTIAL: determinism across runs/processes, NumPy's memmap offset conventions and the kernel's madvise are runtime behaviour "
+                "the model cannot exhibit (exercised, not proved). Integer dtypes are a representation of the harness; the model sees bits.",
+        "technique": "Lean 4 theorems over executable model + cross-representation differential + wrapped madvise",
+    },
+    "C17": {
+        "text": "C17_accept_iff (constructor and set_merge accept exactly the same criterion/tolerance arguments, names and objects), "
+                "C17_same_fn, C17_frame (set_merge changes exactly what it is given; a chosen tolerance survives), C17_atomic (a failing "
+                "set_merge changes nothing), C17_reset / C17_reset_fresh (reset = freshly constructed estimator with the same "
+                "configuration), C17_ctor. Correspondence: configuration streams (constructor with names/objects/None x tolerance, "
+                "set_merge with every argument subset, setters, reset) compared on criterion/tolerance/threshold/branching factor and "
+                "clustering after every call; oracle re-checks symmetry, frame and atomicity on the real objects.",
+        "note": TB + "Models the repaired logic (fix b75235c); the tolerance lives in the merge-function object, so switching to a criterion "
+                "without tolerance and back yields the default. Not modelled: one merge-function OBJECT shared by two estimators (aliasing), "
+                "the discouraged global set_merge.",
+        "technique": "Lean 4 theorems over decision-logic model + differential correspondence",
+    },
 }
